@@ -1,0 +1,15 @@
+//go:build verif
+
+package cmd
+
+import (
+	"github.com/spf13/cobra"
+
+	"istio.io/istio/tools/common/config"
+)
+
+// VerifBindFlags exposes the command-line flag binding of istio-iptables (bindCmdlineFlags) to the
+// C20 verification harness. Build tag `verif` only; no behaviour change.
+func VerifBindFlags(cfg *config.Config, cmd *cobra.Command) {
+	bindCmdlineFlags(cfg, cmd)
+}
